@@ -69,6 +69,8 @@ THEOREMS = [
     'CpProofs.C01Lazy.C01_lazy_pipeline_complete',
     'CpProofs.C01Lazy.C01_lazy_head_complete',
     'CpProofs.C01Lazy.C01_lazy_overlapped_request_served',
+    'CpProofs.C01Lazy.solo_build',
+    'CpProofs.C01Lazy.C01_lazy_solo_progress',
     'CpProofs.C01Lazy.C01_lazy_inplace_false',
     # InternalRedirector with query strings (lean/CpModel/RedirQ.lean)
     'CpProofs.C01Redirect.redirector_terminates',
